@@ -19,6 +19,7 @@ Definition site_open (v : variant) (o : oracles) (s : site) : Prop :=
   | SWildcard => g_wc_must v = true /\ (g_wc_quote v = false \/ exists n, o_wc_quoted o n = false)
   | STraverseStruct => g_traverse_struct v = false
   | SMatrixNilMap => g_omap_nil v = false
+  | SDeepCopyNil => g_deepcopy_nil v = false
   | SOther => False
   end.
 
@@ -26,12 +27,12 @@ Definition site_open (v : variant) (o : oracles) (s : site) : Prop :=
    QuoteMeta under the law of regexp that a quoted literal always compiles *)
 Definition all_guards (v : variant) (o : oracles) : Prop :=
   g_var_len v = true /\ g_glob_nil v = true /\ g_platform_nil v = true /\ g_requires_nil v = true /\
-  g_snippet_clamp v = true /\ g_git_len v = true /\ g_traverse_struct v = true /\ g_omap_nil v = true /\
+  g_snippet_clamp v = true /\ g_git_len v = true /\ g_traverse_struct v = true /\ g_omap_nil v = true /\ g_deepcopy_nil v = true /\
   (g_wc_must v = false \/ (g_wc_quote v = true /\ forall n, o_wc_quoted o n = true)).
 
 Lemma all_guards_closed : forall v o s, all_guards v o -> ~ site_open v o s.
 Proof.
-  intros v o s (H1 & H2 & H3 & H4 & H5 & H6 & H7 & H8 & H9) Ho.
+  intros v o s (H1 & H2 & H3 & H4 & H5 & H6 & H7 & H8 & H8' & H9) Ho.
   destruct s; cbn in Ho; try congruence.
   destruct Ho as (Hm & Hq). destruct H9 as [H9 | (H9 & H10)]; [ congruence | ].
   destruct Hq as [Hq | (n & Hn)]; [ congruence | ]. rewrite H10 in Hn. discriminate.
@@ -226,9 +227,17 @@ Proof.
   - apply evs_open_flat_map; intros t. destruct (t_internal t); [ apply evs_open_nil | apply run_events_open ].
 Qed.
 
+Lemma slice_deepcopy_open : forall t s, slice_deepcopy v t = Panic s -> open s.
+Proof.
+  intros t s H. unfold slice_deepcopy in H.
+  destruct (task_has_nil_elem t); cbn in H; [ | discriminate ].
+  destruct (g_deepcopy_nil v) eqn:E; cbn in H; [ discriminate | ]. inversion H; subst. exact E.
+Qed.
+
 Lemma merge_events_open : forall t, evs_open (merge_events v t).
 Proof.
-  intros t. unfold merge_events. apply evs_open_app; apply evs_open_flat_map; intros [x | ];
+  intros t. unfold merge_events. apply evs_open_app; [ apply ev_of_open, slice_deepcopy_open | ].
+  apply evs_open_app; apply evs_open_flat_map; intros [x | ];
     try apply evs_open_nil; apply ev_of_open, for_deepcopy_open.
 Qed.
 
